@@ -259,10 +259,10 @@ func Derived(op, what string, in, out *ach.File, add func(key, what string)) {
 	}
 }
 
-// unsegmentable: a MIXED standard batch holds an entry whose transaction code is in neither the
+// Unsegmentable: a MIXED standard batch holds an entry whose transaction code is in neither the
 // credit nor the debit list (valid only under CheckTransactionCode).  Credits-only and
 // debits-only batches go to their file as they are.
-func unsegmentable(f *ach.File) bool {
+func Unsegmentable(f *ach.File) bool {
 	for _, b := range f.Batches {
 		if b.GetHeader().ServiceClassCode != ach.MixedDebitsAndCredits {
 			continue
